@@ -37,7 +37,7 @@ Model(r) ==
   LET n  == Len(r.prog)
   IN Bind(SetupState(SubSeq(r.prog, 1, n - 1)), LAMBDA s0 :
      Bind(Apply(s0.db, r.prog[n]), LAMBDA a :
-     Bind(Program(a.body), LAMBDA p :
+     Bind(ProgramOf(s0.db, r.prog[n], a.body), LAMBDA p :
        LET j  == IF r.k = 0 THEN Len(p) + 1 ELSE r.k + Off(p)
            sc == After(s0, p, a.post, IF j - 1 <= Len(p) THEN j - 1 ELSE Len(p))
            sr == IF r.k = 0 THEN sc ELSE Restarted(sc)      \* what the fresh process finds after Start
@@ -93,15 +93,19 @@ CallOf(o) ==
     [] o.op = "Complete" -> [op |-> "CompleteUpload", b |-> "b1", k |-> o.k, u |-> 0, cond |-> "none", manifest |-> "none"]
     [] o.op = "Abort" -> [op |-> "AbortUpload", b |-> "b1", k |-> o.k, u |-> 0]
     [] o.op = "Transition" -> [op |-> "Transition", b |-> "b1", k |-> o.k, vid |-> -1, cond |-> "none", class |-> o.class]
+    [] o.op = "DeleteAll" -> [op |-> "DeleteObjects", b |-> "b1", keys |-> BulkOrder]
+\* bucket creation; on a "-notif" stack also the bucket notification rule s3:ObjectRemoved:*
+Prelude == <<[op |-> "CreateBucket", b |-> "b1"]>> \o
+           (IF Stack = "fs-notif" THEN <<[op |-> "PutNotification", b |-> "b1", events |-> <<"s3:ObjectRemoved:*">>]>> ELSE <<>>)
 
 Detail(prog) ==
   LET n == Len(prog)
   IN Bind(SetupState(SubSeq(prog, 1, n - 1)), LAMBDA s0 :
      Bind(Apply(s0.db, prog[n]), LAMBDA a :
-     Bind(Program(a.body), LAMBDA p :
+     Bind(ProgramOf(s0.db, prog[n], a.body), LAMBDA p :
        [prog   |-> prog,
         kind   |-> Kind(s0.db, prog[n]),
-        calls  |-> <<[op |-> "CreateBucket", b |-> "b1"]>> \o [i \in 1..n |-> CallOf(prog[i])],
+        calls  |-> Prelude \o [i \in 1..n |-> CallOf(prog[i])],
         instrs |-> [j \in 1..Len(p) |-> p[j].i],
         points |-> Points(p),
         off    |-> Off(p),
